@@ -47,6 +47,16 @@ def _released(obj):
         w.sched.unblock(obj)
 
 
+def _held(delta):
+    """Book-keeping for the fault injector: injected asynchronous aborts are
+    deferred while the actor holds a simulated lock (Python's `with lock:` is not
+    safe against an exception raised on the line event just before __exit__; code
+    that uses locks correctly must not be blamed for that)."""
+    w, a = _actor()
+    if a is not None:
+        a.held_locks = max(0, a.held_locks + delta)
+
+
 class Lock:
     def __init__(self):
         self._l = _thread.allocate_lock()
@@ -54,11 +64,14 @@ class Lock:
     def acquire(self, blocking=True, timeout=-1):
         r = _wait_until(self, lambda: self._l.acquire(False), blocking, timeout)
         if r is None:
-            return self._l.acquire(blocking, timeout)
+            r = self._l.acquire(blocking, timeout)
+        if r:
+            _held(+1)
         return r
 
     def release(self):
         self._l.release()
+        _held(-1)
         _released(self)
 
     def locked(self):
@@ -88,6 +101,7 @@ class RLock:
         if r:
             self._owner = me
             self._count = 1
+            _held(+1)
         return r
 
     def release(self):
@@ -97,6 +111,7 @@ class RLock:
         if self._count == 0:
             self._owner = None
             self._l.release()
+            _held(-1)
             _released(self)
 
     __enter__ = acquire
@@ -168,12 +183,76 @@ class Event:
         return r
 
 
+class Condition:
+    """Cooperative threading.Condition on top of the cooperative locks."""
+
+    def __init__(self, lock=None):
+        self._lock = lock if lock is not None else RLock()
+        self._waiting = []
+        self.acquire = self._lock.acquire
+        self.release = self._lock.release
+
+    def __enter__(self):
+        return self._lock.__enter__()
+
+    def __exit__(self, *exc):
+        return self._lock.__exit__(*exc)
+
+    def _release_save(self):
+        lk = self._lock
+        if isinstance(lk, RLock):
+            n = lk._count
+            lk._count = 1
+            lk.release()
+            return n
+        lk.release()
+        return 1
+
+    def _acquire_restore(self, n):
+        lk = self._lock
+        lk.acquire()
+        if isinstance(lk, RLock):
+            lk._count = n
+
+    def wait(self, timeout=None):
+        token = [False]
+        self._waiting.append(token)
+        saved = self._release_save()
+        try:
+            r = _wait_until(self, lambda: token[0], True, -1 if timeout is None else timeout)
+            if r is None:
+                raise RuntimeError("simulated Condition would block outside a simulated run")
+            return r
+        finally:
+            if token in self._waiting:
+                self._waiting.remove(token)
+            self._acquire_restore(saved)
+
+    def wait_for(self, predicate, timeout=None):
+        result = predicate()
+        while not result:
+            if not self.wait(timeout) and timeout is not None:
+                return predicate()
+            result = predicate()
+        return result
+
+    def notify(self, n=1):
+        for token in self._waiting[:n]:
+            token[0] = True
+        del self._waiting[:n]
+        _released(self)
+
+    def notify_all(self):
+        self.notify(len(self._waiting))
+
+
 _OVERRIDES = {
     "Lock": Lock,
     "RLock": RLock,
     "Semaphore": Semaphore,
     "BoundedSemaphore": BoundedSemaphore,
     "Event": Event,
+    "Condition": Condition,
     "allocate_lock": Lock,
     "_allocate_lock": Lock,
     "LockType": Lock,
